@@ -361,14 +361,12 @@ def fourier_multiplier(expr, name):
     return res, ""
 
 
-def filters(S, rep, tier):
-    orders = (1, 2) if tier == "quick" else (1, 2, 3, 4, 5)
+def filter_case(S, item, rep):
+    ft, order, fieldt = item
     s = [Poly.sym("s%d" % k) for k in range(3)]
-    for ft in ("multiplicative", "convolution"):
-        for order in orders:
-            for fieldt in ("scalar", "vector"):
-                if fieldt == "vector" and (tier == "quick" and order > 1):
-                    continue
+    if True:
+        if True:
+            if True:
                 e = find_entry("gen_laplacian_filter_kernel_3d", field_type=fieldt, filter_type=ft, filter_order=order)
                 ex, sm = interiors(S, e)
                 names = ["scalar_field"] if fieldt == "scalar" else [comp("vector_field", c) for c in range(3)]
@@ -402,6 +400,19 @@ def filters(S, rep, tier):
                     rep.ob("C19.d", inst + " buffer independence", not stale,
                            "filtered field depends on prior buffer contents: %s" % stale if stale else "every cell depends on the field only",
                            key="C19.d|%s|%s|stale|%s" % (e.label(), n, stale), nontrivial=False)
+
+
+def filters(S, rep, tier):
+    from .common import filter_orders
+    from .simtools import parallel_over
+    items = []
+    for ft in ("multiplicative", "convolution"):
+        for fieldt in ("scalar", "vector"):
+            for order in filter_orders(tier, fieldt):
+                if fieldt == "vector" and (tier == "quick" and order > 1):
+                    continue
+                items.append((ft, order, fieldt))
+    parallel_over(S, rep, "sa.props.c19", "filter_case", items)
     # the 1-D factors themselves: symbol (1 - cos theta)/2 in [0, 1]
     from ..algtools import launch_exprs
     _, sm = interiors(S, find_entry("gen_laplacian_filter_kernel_3d", field_type="scalar", filter_type="convolution", filter_order=1))
